@@ -28,6 +28,7 @@ THEOREMS = [NS + t for t in [
     "resolve_none_iff",
     "resolve_outcomes",
     "alias_step_in_place",
+    "alias_agrees_partial",
     "witness_alias_shadows_command",
 ]]
 STANDIN = os.path.join(C.VERIF, "vlib", "props", "c18_git_standin.sh")
@@ -317,8 +318,17 @@ def run(tier, seed):
         res.obligation("build harness against the working tree", False, "build")
         res.broken_tie("harness build", out[-3000:])
         return res.finish()
-    n = 30000 if tier == "quick" else 1500000
-    bad, newfail = C.phase_suite(res, "c18", seed, n, CORPUS)
+    if tier == "quick":
+        bad, newfail = C.phase_suite(res, "c18", seed, 30000, CORPUS)
+    else:
+        # 20 x 100 000 cases, one seed each (a suite's cases are held in memory while compared)
+        bad, newfail = C.phase_suite(res, "c18", seed, 100000, CORPUS)
+        for k in range(1, 20):
+            if res.violations:
+                break
+            b, f = C.phase_suite(res, "c18", seed * 1000 + k, 100000, None, name=f"correspondence:c18:chunk{k}")
+            bad += b
+            newfail += f
     phase_e2e(res, seed, 40 if tier == "quick" else 1500)
     if (bad or res.broken or not extracted) and not res.violations:
         # broken tie: search harder for a concrete failing input on the implementation
